@@ -12,6 +12,7 @@ import (
 	"go/parser"
 	"go/printer"
 	"go/token"
+	"go/types"
 	"os"
 	"path/filepath"
 	"sort"
@@ -142,6 +143,7 @@ func main() {
 
 type rewriter struct {
 	chanNames map[string]bool
+	ps        *pkgSyntax
 	fset      *token.FileSet
 	rel       string
 	needVrt   bool
@@ -149,13 +151,87 @@ type rewriter struct {
 	tmp       int
 }
 
-func rewriteFile(path, rel string) ([]byte, bool, error) {
-	fset := token.NewFileSet()
-	f, err := parser.ParseFile(fset, path, nil, parser.ParseComments)
-	if err != nil {
-		return nil, false, err
+// pkgSyntax is one directory's non-test files, parsed once with a shared file set and
+// type-checked as far as that is possible without the imported packages (a stub importer
+// hands out empty packages and every error is ignored): what is declared inside the
+// package - struct fields, variables, parameters of channel type in any of its files -
+// resolves, which is all that is needed to recognise `for v := range ch`.
+type pkgSyntax struct {
+	fset  *token.FileSet
+	files map[string]*ast.File
+	info  *types.Info
+}
+
+var pkgCache = map[string]*pkgSyntax{}
+
+type stubImporter struct{ pkgs map[string]*types.Package }
+
+func (si stubImporter) Import(path string) (*types.Package, error) {
+	if p := si.pkgs[path]; p != nil {
+		return p, nil
 	}
-	rw := &rewriter{fset: fset, rel: rel}
+	name := path
+	if i := strings.LastIndex(path, "/"); i >= 0 {
+		name = path[i+1:]
+	}
+	p := types.NewPackage(path, name)
+	p.MarkComplete()
+	si.pkgs[path] = p
+	return p, nil
+}
+
+func loadPkg(dir string) *pkgSyntax {
+	if ps := pkgCache[dir]; ps != nil {
+		return ps
+	}
+	ps := &pkgSyntax{fset: token.NewFileSet(), files: map[string]*ast.File{}, info: &types.Info{Types: map[ast.Expr]types.TypeAndValue{}}}
+	pkgCache[dir] = ps
+	ents, _ := os.ReadDir(dir)
+	byPkg := map[string][]*ast.File{}
+	for _, e := range ents {
+		n := e.Name()
+		if e.IsDir() || !strings.HasSuffix(n, ".go") || strings.HasSuffix(n, "_test.go") {
+			continue
+		}
+		path := filepath.Join(dir, n)
+		f, err := parser.ParseFile(ps.fset, path, nil, parser.ParseComments)
+		if err != nil {
+			continue // rewriteFile reports the error
+		}
+		ps.files[path] = f
+		byPkg[f.Name.Name] = append(byPkg[f.Name.Name], f)
+	}
+	for name, files := range byPkg {
+		cfg := types.Config{Importer: stubImporter{map[string]*types.Package{}}, Error: func(error) {}, FakeImportC: true}
+		func() {
+			defer func() { recover() }() // best effort: a checker crash must not stop the build
+			cfg.Check(name, ps.fset, files, ps.info)
+		}()
+	}
+	return ps
+}
+
+func (ps *pkgSyntax) isChan(e ast.Expr) bool {
+	if tv, ok := ps.info.Types[e]; ok && tv.Type != nil {
+		_, isChan := tv.Type.Underlying().(*types.Chan)
+		return isChan
+	}
+	return false
+}
+
+func rewriteFile(path, rel string) ([]byte, bool, error) {
+	ps := loadPkg(filepath.Dir(path))
+	fset := ps.fset
+	f := ps.files[path]
+	if f == nil {
+		var err error
+		fset = token.NewFileSet()
+		f, err = parser.ParseFile(fset, path, nil, parser.ParseComments)
+		if err != nil {
+			return nil, false, err
+		}
+	}
+	rw := &rewriter{fset: fset, rel: rel, ps: ps}
 	// imports
 	for _, im := range f.Imports {
 		p, _ := strconv.Unquote(im.Path.Value)
@@ -520,6 +596,9 @@ func (rw *rewriter) rangeChan(r *ast.RangeStmt) ast.Stmt {
 		known = rw.chanNames[x.Name]
 	case *ast.SelectorExpr:
 		known = rw.chanNames[x.Sel.Name]
+	}
+	if rw.ps != nil && rw.ps.isChan(r.X) {
+		known = true
 	}
 	if !known || r.Value != nil {
 		return nil
